@@ -32,9 +32,9 @@ def expected_chain(info, active_idx):
     return ["f%d" % i for i in flostep.chain(info["parent"], active_idx)]
 
 
-def h(sym, n, ngo, auxes, symticks, end, parent, first, suspended):
+def h(sym, n, ngo, auxes, symticks, end, parent, first, suspended, aux_frames=2):
     prog, info = flostep.family(sym, n, ngo=ngo, auxes=auxes, parent=parent, first=first,
-                                near_in_cur=True, host_in_cur=True)
+                                near_in_cur=True, host_in_cur=True, aux_frames=aux_frames)
     controls = [START]
     plan = [{"*": 1}]
     if suspended:   # concrete prelude tick: conditional aux condition true, aux not completing, no transition
@@ -105,15 +105,19 @@ def obligations(tier):
                 (3, 1, ("cond",), 2, STOP, True), (4, 1, ("cond",), 1, None, True), (3, 1, ("cond",), 2, ABORT, False),
                 (3, 1, ("cond", "plain"), 1, None, True), (3, 1, (), 1, "restart", False), (4, 1, (), 1, "restart", False),
                 (3, 1, ("cond",), 1, "restart", True)]
-    for (n, ngo, auxes, symticks, end, suspended) in cfgs:
+    # conditional auxiliaries that complete within their first iteration (one frame with 'done me')
+    cfgs += [(3, 1, ("cond",), 1, None, False, 1)] + ([(4, 1, ("cond",), 1, STOP, False, 1), (3, 1, ("cond",), 2, None, False, 1)] if tier != "quick" else [])
+    for cfg in cfgs:
+        (n, ngo, auxes, symticks, end, suspended) = cfg[:6]
+        aux_frames = cfg[6] if len(cfg) > 6 else 2
         covers = ["running"] + (["not-running"] if end is not None else [])
         for parent in flostep.all_forests(n):
             out.append(Ob("step/N%d-go%d-%s-%s-sym%d-%s/%s" % (
-                              n, ngo, "+".join(auxes) or "noaux", "suspended" if suspended else "fresh", symticks,
+                              n, ngo, ("+".join(auxes) or "noaux") + ("-aux1" if aux_frames == 1 else ""), "suspended" if suspended else "fresh", symticks,
                               {None: "run", 0: "stop", 3: "abort", "restart": "restart"}[end],
                               "".join("r" if q < 0 else str(q) for q in parent)),
                           h, dict(n=n, ngo=ngo, auxes=auxes, symticks=symticks, end=end, parent=parent, first=None,
-                                  suspended=suspended),
+                                  suspended=suspended, aux_frames=aux_frames),
                           budget=400 if tier == "quick" else 1200, covers=covers,
                           bounds=dict(frames=n, forest=parent, first="any", transitions=ngo, auxes=list(auxes),
                                       symbolic_ticks=symticks, prelude="start" + ("+activate cond aux" if suspended else ""),
